@@ -1,6 +1,10 @@
 package stats
 
-import "sync/atomic"
+import (
+	"sync/atomic"
+
+	"github.com/internetarchive/Zeno/internal/pkg/verifhook"
+)
 
 type mean struct {
 	count uint64
@@ -9,6 +13,7 @@ type mean struct {
 
 func (m *mean) add(value uint64) {
 	atomic.AddUint64(&m.count, 1)
+	verifhook.At("stats.mean.add.mid", m)
 	atomic.AddUint64(&m.sum, value)
 }
 
@@ -25,5 +30,6 @@ func (m *mean) get() float64 {
 
 func (m *mean) reset() {
 	atomic.StoreUint64(&m.count, 0)
+	verifhook.At("stats.mean.reset.mid", m)
 	atomic.StoreUint64(&m.sum, 0)
 }
